@@ -453,6 +453,9 @@ type LevelTab struct {
 	Min, Size [3]int
 	Classes   [][]int // class c (1-based) -> the 8 children (regions at level 1, level-1 classes at level 2; 0 = unwritten)
 	cls       []int32 // class per voxel of the level's bounding box
+	// refined tables (DownresN): block of the level holding the voxels of the class, block of the level below holding
+	// their children (1-based in Geom.LevelBlocks, 0 = no such block)
+	Blk, Src []int
 }
 
 // Downres computes the class tables of levels 1 and 2 by brute force over the geometry.
